@@ -137,6 +137,36 @@ def step (st : St) (fs : List String) : St × String :=
     | none => (st, "bad-op")
   | _ => (st, "bad-op")
 
+/-! Stream `raftleader`: the same entry language, fed with the log a REAL leader produced (re-assembled per operation),
+replayed on model replica 0; `leader <idx> <n>` asks what the leader must have told the client of the operation that
+ended at `idx`: the verdict every replica reaches for that entry. `ldigest`: the leader's own data = the replica's. -/
+structure LSt where
+  st : St := []
+  seen : List (Nat × Char) := []
+
+def lstep (l : LSt) (fs : List String) : LSt × String :=
+  match fs with
+  | ["leader", idx, _n] =>
+    match parseNat? idx with
+    | some i => (l, match l.seen.find? (·.1 == i) with
+                    | some (_, v) => String.singleton v
+                    | none => "no-such-entry")
+    | none => (l, "bad-op")
+  | ["ldigest"] =>
+    match l.st[0]? with
+    | some rep => (l, showDigest rep.kv)
+    | none => (l, "bad-op")
+  | "batch" :: "0" :: ents =>
+    let (st', out) := step l.st fs
+    match ents.mapM parseEntry? with
+    | some es =>
+      let vs := ((out.splitOn "|").headD "").toList
+      if vs.length = es.length then ({ st := st', seen := l.seen ++ (es.map (·.idx)).zip vs }, out)
+      else ({ l with st := st' }, out)
+    | none => ({ l with st := st' }, out)
+  | _ => let (st', out) := step l.st fs; ({ l with st := st' }, out)
+
 def streams : List (String × Driver.Stream) :=
-  [("raftfsm", { σ := St, init := [], step := step })]
+  [("raftfsm", { σ := St, init := [], step := step }),
+   ("raftleader", { σ := LSt, init := {}, step := lstep })]
 end Driver.RaftFSM
